@@ -14,6 +14,7 @@ import SkModel.Store
 import SkModel.Seeker
 import SkModel.Since
 import SkModel.Collection
+import SkModel.ParStore
 import SkModel.Spec.Lines
 
 open Lean Sk
@@ -371,10 +372,97 @@ def runCollCase (j : Json) : Json :=
     | k => Json.str s!"unknown query {k}"
   Json.mkObj [("answers", Json.arr qs)]
 
+/-! ### ParStore (C06): validate an implementation trace against the transition system -/
+
+def toNs (j : Json) : Ns :=
+  match asStr j with
+  | "tag" => .tag
+  | "seq" => .seq
+  | _ => .value
+
+partial def advanceLocal (s : PState) (w : Nat) : PState :=
+  match pstep s (.local_ w) with
+  | some s' => advanceLocal s' w
+  | none => s
+
+/-- returns (state, none) or (state reached, some reason) -/
+def applyEvent (s : PState) (retCount : Nat → Nat) (ev : Json) :
+    PState × (Nat → Nat) × Option String :=
+  let a := asArr ev
+  let kind := asStr (a.getD 0 .null)
+  let w := asNat (a.getD 1 .null)
+  let s := advanceLocal s w
+  let stepOr (l : PLbl) (what : String) : PState × (Nat → Nat) × Option String :=
+    match pstep s l with
+    | some s' => (s', retCount, none)
+    | none => (s, retCount, some s!"{what} by worker {w} is not an enabled step of the model")
+  match kind with
+  | "acq" => stepOr (.acquire w) "lock acquire"
+  | "rel" => stepOr (.release w) "lock release"
+  | "pget" => stepOr (.readPtr w (asNat (a.getD 2 .null))) "pointer read"
+  | "pset" => stepOr (.writePtr w (asNat (a.getD 2 .null))) "pointer write"
+  | "dset" => stepOr (.syncData w (asNat (a.getD 2 .null)) (asStr (a.getD 3 .null))) "shared data write"
+  | "rin" => stepOr (.syncRevRead w (toNs (a.getD 2 .null)) (asStr (a.getD 3 .null))
+                      (asBool (a.getD 4 .null))) "shared reverse-map membership test"
+  | "rset" => stepOr (.syncRevWrite w (toNs (a.getD 2 .null)) (asStr (a.getD 3 .null))
+                       (asNat (a.getD 4 .null))) "shared reverse-map write"
+  | "syncstart" =>
+    -- entering sync(): with the lock (an "acq" follows) or without; nothing to do here
+    (s, retCount, none)
+  | "syncend" =>
+    let s1 := match pstep s (.syncStart w) with | some s' => s' | none => s
+    (match pstep s1 (.syncDone w) with
+     | some s' => (s', retCount, none)
+     | none => (s1, retCount, some s!"sync() of worker {w} returned but the model cannot finish it"))
+  | "ret" =>
+    let k := retCount w
+    let rets := (s.ws w).rets
+    let want := [rets.getD (3 * k + 1) none, rets.getD (3 * k + 2) none, rets.getD (3 * k) none]
+    let got := [2, 3, 4].map fun i => match a.getD i .null with | .null => none | v => some (asNat v)
+    if rets.length < 3 * k + 3 then
+      (s, retCount, some s!"add #{k} of worker {w} returned but the model still needs a block")
+    else if want != got then
+      (s, retCount, some s!"add #{k} of worker {w} returned {got} but the model computes {want}")
+    else (s, fun x => if x = w then k + 1 else retCount x, none)
+  | k => (s, retCount, some s!"unknown event {k}")
+
+def runParCase (j : Json) : Json :=
+  let B := natF j "B"
+  let progsA := (arrF j "progs").map fun p =>
+    microOps ((asArr p).toList.map fun o => let a := asArr o
+      (optStr (a.getD 0 .null), optStr (a.getD 1 .null), optStr (a.getD 2 .null)))
+  let n := progsA.size
+  let s0 := PState.init B (fun w => progsA.getD w [])
+  let evs := arrF j "events"
+  let rec go (i : Nat) (s : PState) (rc : Nat → Nat) (fuel : Nat) : PState × Option (Nat × String) :=
+    match fuel with
+    | 0 => (s, none)
+    | fuel + 1 =>
+      if i < evs.size then
+        match applyEvent s rc (evs.getD i .null) with
+        | (s', rc', none) => go (i + 1) s' rc' fuel
+        | (s', _, some why) => (s', some (i, why))
+      else (s, none)
+  let (sF, bad) := go 0 s0 (fun _ => 0) (evs.size + 1)
+  let workers := (List.range n).map fun w =>
+    let p := sF.ws w
+    Json.mkObj [("done", toJson (p.pc == .done)), ("grants", toJson p.grants),
+                ("rets", Json.arr (p.rets.map optNat).toArray),
+                ("data", Json.arr (p.st.data.map fun q => Json.arr #[toJson q.1, Json.str q.2]).toArray)]
+  -- shared data as a dict: newest write wins
+  let keys := (sF.sdata.map (·.1)).eraseDups
+  let shared := keys.map fun k => Json.arr #[toJson k, optVal (sF.sdata.lookup k)]
+  Json.mkObj [("valid", toJson bad.isNone),
+    ("at", match bad with | some (i, _) => toJson i | none => .null),
+    ("why", match bad with | some (_, w) => Json.str w | none => .null),
+    ("ptr", toJson sF.ptr), ("lockFree", toJson sF.lock.isNone),
+    ("workers", Json.arr workers.toArray), ("shared", Json.arr shared.toArray)]
+
 def handle (j : Json) : Json :=
   match strF j "kind" with
   | "task" => Json.mkObj [("model", runTaskCase j), ("specSimple", specSimpleCase j),
                           ("specSeq", specSeqCase j), ("specGate", specGateCase j)]
+  | "parstore" => Json.mkObj [("model", runParCase j)]
   | "coll" => Json.mkObj [("model", runCollCase j)]
   | "since" => Json.mkObj [("model", runSinceCase j)]
   | "seek" => Json.mkObj [("model", runSeekCase j)]
